@@ -103,7 +103,8 @@ class World(object):
             rows = c.execute("SELECT prekey_id, sent_to_server, record FROM prekeys ORDER BY prekey_id").fetchall()
         finally:
             c.close()
-        return [(int(i), 1 if s else 0, bytes(rec)) for i, s, rec in rows]
+        self.tombstones = [int(i) for i, s, rec in rows if rec is None]      # consumed keys: the row stays, without key material
+        return [(int(i), 1 if s else 0, bytes(rec)) for i, s, rec in rows if rec is not None]
 
 
 def _id_of(b):
@@ -212,7 +213,7 @@ def run_case(chk, stream, case):
             outs.append("raised")
         rows = w.db_rows()
         unsent = len(getattr(w.control, "_unsent_prekeys", []))
-        state = "db=%s;unsent=%d;passive=%d;reboot=%d" % (",".join("%d:%d" % (i, s) for i, s, _ in rows), unsent,
+        state = "db=%s;tomb=%s;unsent=%d;passive=%d;reboot=%d" % (",".join("%d:%d" % (i, s) for i, s, _ in rows), ",".join(str(i) for i in sorted(w.tombstones)), unsent,
                                                           1 if w.stack.getProp(YowAuthenticationProtocolLayer.PROP_PASSIVE, False) else 0,
                                                           1 if getattr(w.control, "_reboot_connection", False) else 0)
         model = d.ask("pk ev " + mev)
